@@ -5,6 +5,8 @@ from vlib import common
 def key_fn(case, obs, verdict):
     f = case.split(" ")
     mode = "per-instance" if len(f) > 1 and f[1] == "1" else "shared"
+    if f[0] == "cfgpool":
+        return "config-built-pool:%s-profile:rps-as-%s:%s" % (mode, f[5] if len(f) > 5 else "?", verdict.split(" ")[0])
     return "engine-pool:%s-profile:%s" % (mode, verdict.split(" ")[0])
 
 
